@@ -2,6 +2,7 @@ package vsched
 
 import (
 	"time"
+	"unsafe"
 )
 
 // Timer is a scheduler-owned virtual timer.
@@ -16,7 +17,12 @@ type Timer struct {
 	desc   string
 }
 
+var timersObj byte
+
 func (s *Sched) addTimer(t *Timer) {
+	if s.cur != nil {
+		s.event(s.cur, unsafe.Pointer(&timersObj), true, 7)
+	}
 	s.timerSeq++
 	t.seq = s.timerSeq
 	t.active = true
@@ -54,6 +60,7 @@ func (s *Sched) fire(t *Timer) {
 	if s.cfg.LogEvents {
 		s.out.EventLog = append(s.out.EventLog, "fire "+t.desc+" @"+s.clock.String())
 	}
+	s.barrier(0x200 + uint64(s.clock))
 	if t.period > 0 {
 		t.when += t.period
 		s.timerSeq++
@@ -68,11 +75,15 @@ func (s *Sched) fire(t *Timer) {
 		}
 	}
 	if t.fn != nil {
+		cur := s.cur
+		s.cur = nil // scheduler-owned callback: its effects are ordered by the barrier above
 		t.fn()
+		s.cur = cur
 	}
 	if t.spawn != nil {
 		th := s.newThread("afterfunc:"+t.desc, t.spawn)
 		th.op = &Op{kind: opReady, desc: "start"}
+		th.vc = s.gvc.clone()
 	}
 }
 
@@ -134,7 +145,7 @@ func (t *Timer) Stop() bool {
 	if s == nil || s.aborting {
 		return false
 	}
-	Point("timer.Stop", nil)
+	PointObj("timer.Stop", nil, unsafe.Pointer(&timersObj), true)
 	was := t.active
 	if was {
 		s.removeTimer(t)
@@ -148,7 +159,7 @@ func (t *Timer) Reset(d time.Duration) bool {
 	if s == nil || s.aborting {
 		return false
 	}
-	Point("timer.Reset", nil)
+	PointObj("timer.Reset", nil, unsafe.Pointer(&timersObj), true)
 	was := t.active
 	if was {
 		s.removeTimer(t)
